@@ -347,7 +347,7 @@ func genAddr(r *util.Rng) string {
 	port := []string{"80", "0", "65535", "9851", "", "x", "123456"}[r.Intn(7)]
 	sep := []string{"://", "://", "://", ":", ":/", "//", ""}[r.Intn(7)]
 	if strings.ToLower(sc) == "unix" {
-		p := []string{"/tmp/a.sock", "a.sock", "/tmp/../x/./y.sock", "/", "", "dir/sub/s", "/a//b/"}[r.Intn(7)]
+		p := []string{"/tmp/a.sock", "a.sock", "/tmp/../x/./y.sock", "/", "", "dir/sub/s", "/a//b/", "/../x", "../x", "./", ".", "/a/../../b", "a/..", "..", "/a/./b/../c.sock", "a%2f..", "//x"}[r.Intn(17)]
 		return sc + sep + p
 	}
 	s := sc + sep + host
